@@ -391,7 +391,11 @@ def signature(kind, case, impl, spec, compare):
     t, a, b = failing[0]
     aid = target_array(info, t)
     rank = info['rank'].get(aid, 0)
-    sig = {'defect': 'other', 'kind': kind, 'query': t[0], 'mode': t[2] if len(t) > 2 else '',
+    why = explain(kind, case, impl, spec, compare)
+    if why.startswith('item') or why.startswith('several'):
+        # one of the modelled defects accounts for every failing line: one report per defect
+        return {'defect': why, 'kind': kind}
+    sig = {'defect': why, 'kind': kind, 'query': t[0], 'mode': t[2] if len(t) > 2 else '',
            'impl': a.split(' ')[0] + (' ' + a.split(' ')[1] if a.startswith('ERR') else ''),
            'spec': b.split(' ')[0]}
     if kind == 'tag':
@@ -402,7 +406,86 @@ def signature(kind, case, impl, spec, compare):
         ns = 1 if (len(ps) < 2 or rank <= 1) else min(ps[1], rank)
         sig['unspecified_dims'] = max(0, rank - ns)
         sig['extents'] = 'present' if info.get('mne') else 'absent'
-        sig['positions'] = ps[0] if ps else 0
-        if t[0] in ('moffcnt', 'mtagged', 'mfeature'):
-            sig['indices'] = min(int(t[3]), 3) if len(t) > 3 else 0
     return sig
+
+
+# ------------------------------------------------------------------------------------------ explanation by the model
+# The model carries one switch per known defect (coq/Access/Retrieval.v, record `behaviour`).  A failing case is
+# explained by a defect when switching on just that repair makes the MODEL agree with the specification on every
+# failing line of the case (the pinned loss of the last element aside).  'unexplained' = none of the modelled
+# defects accounts for the failure.
+REPAIRS = [('item28-padding-first-plus-last', 'pad_end_is_last'),
+           ('item4-multitag-point-offset', 'mt_point_sets_data_offset,mt_invalid_range_throws'),
+           ('item31-subulp-extent-is-point', 'mt_point_by_extent'),
+           ('item19-empty-index-list', 'mt_empty_guard')]
+_explain_budget = [2500]
+
+
+def _model_lines(kind, case, flags):
+    import subprocess, tempfile, os
+    from engine import BUILD
+    pid = 'C05' if kind == 'tag' else 'C06'
+    exe = os.path.join(BUILD, 'ocaml', pid, 'modeldrv_' + pid)
+    if not os.path.exists(exe):
+        return None
+    with tempfile.NamedTemporaryFile('w', suffix='.case', delete=False) as f:
+        f.write('\n'.join(case.lines) + '\n')
+        name = f.name
+    try:
+        env = dict(os.environ)
+        env['RETR_FLAGS'] = flags
+        r = subprocess.run([exe, name], capture_output=True, text=True, env=env, timeout=30)
+    except Exception:
+        return None
+    finally:
+        os.unlink(name)
+    out = []
+    for l in r.stdout.splitlines():
+        sp = l.split(' ', 1)
+        out.append(sp[1].split(' ## ')[0] if len(sp) > 1 else '')
+    return out if len(out) == len(case.lines) else None
+
+
+def explain(kind, case, impl, spec, compare):
+    if _explain_budget[0] <= 0:
+        return 'other'
+    _explain_budget[0] -= 1
+    info = case_info(case)
+    failing = [k for k, (a, b) in enumerate(zip(impl, spec)) if b != 'ANY' and not compare(a, b)]
+
+    def agrees(model):
+        for k in failing:
+            t = case.lines[k].split(' ')
+            if compare(model[k], spec[k]):
+                continue
+            aid = target_array(info, t)
+            rank = info['rank'].get(aid)
+            if rank is None:
+                return False
+            if t[0] in ('offcnt', 'tagged', 'taggeda', 'feature'):
+                ns = min(info['np'] or 0, rank)
+            else:
+                ps = info['pshape'] or []
+                ns = 1 if (len(ps) < 2 or rank <= 1) else min(ps[1], rank)
+            if not pinned_explains(t[0], model[k], spec[k], lambda _k: ns):
+                return False
+        return True
+
+    # the failure must be the MODELLED behaviour of the pinned code on every failing line; a failure the model of
+    # today's code does not reproduce is not one of the known defects
+    today = _model_lines(kind, case, '')
+    if today is None:
+        return 'other'
+    if not all(compare(impl[k], today[k]) for k in failing):
+        return 'unexplained'
+    for name, flags in REPAIRS:
+        m = _model_lines(kind, case, flags)
+        if m is None:
+            return 'other'
+        if agrees(m):
+            return name
+    allflags = ','.join(f for _, f in REPAIRS)
+    m = _model_lines(kind, case, allflags)
+    if m is not None and agrees(m):
+        return 'several-of-items-4-19-28-31'
+    return 'unexplained'
